@@ -307,7 +307,8 @@ pub fn session_async(rt: &tokio::runtime::Runtime, fr: &Frames, idx: &RepIndex, 
 }
 
 /// version texts LFS has sent or can send (number, letter, optional revision), up to the full 8 bytes of the field
-pub const GOOD_VERSION_TEXTS: [&str; 9] = ["0.7F", "0.7E1234", "0.7D0", "0.6V", "0.7A12", "0.5Z34", "0.7E15", "0.04K", "0.6K999"];
+// (the empty text - a Version field of eight NULs, as a host that does not fill it in sends - is a version packet too: the gate looks at InSimVer)
+pub const GOOD_VERSION_TEXTS: [&str; 10] = ["0.7F", "0.7E1234", "0.7D0", "0.6V", "0.7A12", "0.5Z34", "0.7E15", "0.04K", "0.6K999", ""];
 pub fn is_transient_tok(t: &str) -> bool { t.starts_with("IO") || t == "TO" }
 
 /// the C05/C07/C09 oracle on one implementation trace: None = holds
